@@ -514,6 +514,14 @@ def r6_acceptance(ctx, repo):
     if not scan_ok:
         ctx.violated("R6", C, where(mod, lp), "the scan does not collect exactly the indices of the members the offspring dominates and whether some member dominates it", key="scan")
         return
+    early = [x for x in stmts_of(lp) if isinstance(x, (ast.Break, ast.Return)) and x is not lp]
+    # a break belongs to this loop unless it sits in a nested loop
+    nested = [x for x in stmts_of(lp) if isinstance(x, (ast.For, ast.While)) and x is not lp]
+    early = [x for x in early if not any(x in stmts_of(n_) for n_ in nested)]
+    if early:
+        ctx.violated("R6", C, where(mod, early[0]), "the scan over the population is left early (%s): members the offspring dominates further on are not collected, "
+                     "so an offspring that dominates a member can be rejected instead of replacing it" % type(early[0]).__name__.lower(), key="scan")
+        return
     if domlist is None or domflag is None:
         ctx.inconclusive("R6", C, where(mod, lp), "the locals that collect the dominated indices / the dominated flag are not recognised", key="scan")
         return
